@@ -25,7 +25,7 @@ FrameCases ==
     LET ix == HdrIdx[q]  ct == <<20, 21, 22, 23, 99>>[ix[1]]  pl == Pay(ct)[ix[3]]
         hdr == [ct |-> ct, ver |-> <<65279, 65277, 771, 65279, 65277>>[ix[1]], epoch |-> Epochs[ix[2]], seq |-> Seqs[ix[2]], len |-> Len(pl)]
         wire == EncDtlsHeader(hdr) \o pl \o <<<<>>, <<22, 254>>>>[ix[4]]
-        cuts == IF ix[2] = 1 THEN 0..Len(wire) ELSE {13, Len(wire)} IN
+        cuts == IF ix[2] = 1 \/ Thorough THEN 0..Len(wire) ELSE {13, Len(wire)} IN
     [k \in 1..Cardinality(cuts) |->
        LET cut == SetToSeq(cuts)[k] IN
        Mk("frame", RecFn, NoArgs, <<Lit(SubSeq(wire, 1, cut))>>, hdr, 13 + Len(pl), cut)]])
